@@ -170,4 +170,8 @@ def actPosB (nw : Network) : Bool :=
 /-- all network-level hypotheses of the formation-membership theorems -/
 def formHypsB (nw : Network) : Bool := tourHypsB nw && actPosB nw
 
+/-- hypothesis of the depot-limits theorems: the start node of the overflow depot belongs to it -/
+def ovfNodeB (nw : Network) : Bool :=
+  nw.depotIdxOf (nw.startDepotNodeOf nw.overflowDepot) == nw.overflowDepot
+
 end RSSched.Spec
